@@ -259,6 +259,11 @@ func genC19(g *gen) {
 					fs := factorisations(size(t.shape), 3)
 					if len(fs) > 0 {
 						f := fs[g.r.intn(len(fs))]
+						if g.r.chance(1, 6) {
+							// an "inferred" dimension is not supported: refused, the tensor and the caller's slice untouched
+							f = append([]int{}, f...)
+							f[g.r.intn(len(f))] = -1
+						}
 						steps = append(steps, fmt.Sprintf("reshape $%d %s", t.v, ints(f)))
 						live[ti].shape = nil
 					}
